@@ -44,6 +44,25 @@ def stub(value):
     return types.SimpleNamespace(document=types.SimpleNamespace(getroot=lambda: root))
 
 
+def documents(value):
+    """The stub and two real lxml documents carrying the attribute: an <svg> root without and
+    with a child element (an element without children is falsy - `if root:` is not `if root is
+    not None:`)."""
+    from lxml import etree                  # pylint: disable=import-outside-toplevel
+    docs = [stub(value)]
+    for children in (0, 1):
+        root = etree.Element("svg")
+        try:
+            if value is not None:
+                root.set("width", value)
+        except (ValueError, TypeError):
+            break                           # not a legal attribute value: only the stub carries it
+        if children:
+            etree.SubElement(root, "g")
+        docs.append(types.SimpleNamespace(document=etree.ElementTree(root)))
+    return docs
+
+
 def close(got, want, rel=F(1, 10 ** 12)):
     if not isinstance(got, float):
         return False
@@ -103,18 +122,24 @@ def check_valid(numeral, unit, space_idx):
             # the attribute reader takes the percentage of whatever reference is supplied,
             # a zero reference included; absolute units do not depend on it
             want_px = value * F(ref_doc) / 100 if unit == "%" else want_user
-            px_len = plot_utils.getLength(stub(text), "width", ref_doc)
-            if not close(px_len, want_px) and not (want_px == 0 and px_len == 0):
-                out.append(("getLength", f"getLength(<{desc}>, default={ref_doc!r}) = {px_len!r}, "
-                            f"expected {float(want_px)!r}"))
-        inches = plot_utils.getLengthInches(stub(text), "width")
-        if unit == "%":
-            if inches is not None:
-                out.append(("inches_pct", f"getLengthInches(<{desc}>) = {inches!r} for a "
-                            f"percentage (no reference): expected None"))
-        elif not close(inches, want_user / 96) and not (want_user == 0 and inches == 0):
-            out.append(("inches", f"getLengthInches(<{desc}>) = {inches!r}; pixels / 96 = "
-                        f"{float(want_user / 96)!r}"))
+            for doc in documents(text)[:1 if ref_doc != REF else 3]:
+                px_len = plot_utils.getLength(doc, "width", ref_doc)
+                if not close(px_len, want_px) and not (want_px == 0 and px_len == 0):
+                    out.append(("getLength", f"getLength(<{desc}>, default={ref_doc!r}) = "
+                                f"{px_len!r}, expected {float(want_px)!r}"))
+                    break
+        for k, doc in enumerate(documents(text)):
+            kind = ("stub document", "real <svg> without children", "real <svg> with a child")[k]
+            inches = plot_utils.getLengthInches(doc, "width")
+            if unit == "%":
+                if inches is not None:
+                    out.append(("inches_pct", f"getLengthInches(<{desc}>) = {inches!r} for a "
+                                f"percentage (no reference): expected None"))
+                    break
+            elif not close(inches, want_user / 96) and not (want_user == 0 and inches == 0):
+                out.append(("inches", f"getLengthInches(<{desc}>) [{kind}] = {inches!r}; "
+                            f"pixels / 96 = {float(want_user / 96)!r}"))
+                break
     except Exception as exc:                # pylint: disable=broad-except
         out.append(("raise", f"length functions on {desc} raised {type(exc).__name__}: {exc}"))
     return out
